@@ -1,6 +1,7 @@
 package main
 
 import (
+	"math"
 	"bytes"
 	"errors"
 	"fmt"
@@ -488,7 +489,11 @@ func genAccess(r *Rng, es []srcEntry) []cOp {
 			}
 		case 4:
 			if nh > 0 {
-				ops = append(ops, cOp{kind: "readdir", h: r.Intn(nh), n: r.Range(-1, 3)})
+				cnt := r.Range(-1, 3)
+				if r.Intn(6) == 0 {
+					cnt = []int{math.MaxInt, math.MaxInt - 1, 1 << 40}[r.Intn(3)] // a huge count, also after earlier pages
+				}
+				ops = append(ops, cOp{kind: "readdir", h: r.Intn(nh), n: cnt})
 			}
 		case 5:
 			if nh > 0 {
